@@ -2,6 +2,7 @@
 // statistics, shrinking, replay files, batch driver.  One translation unit per
 // world includes this header and defines a `sim::World` subclass.
 #pragma once
+#include "allocfault.hpp"
 #include <algorithm>
 #include <chrono>
 #include <cinttypes>
@@ -149,6 +150,7 @@ struct Ctx
   }
   void ev(const char* fmt, ...) __attribute__((format(printf, 2, 3)))
   {
+    AllocPause nofail;
     char buf[512];
     va_list ap;
     va_start(ap, fmt);
@@ -165,16 +167,19 @@ struct Ctx
   }
   void fired(const char* f)
   {
+    AllocPause nofail;
     st.fired[f]++;
     nontrivial = true;
   }
   void probe(const char* p)
   {
+    AllocPause nofail;
     st.probes[p]++;
     nontrivial = true;
   }
   void note(const std::string& s)
   {
+    AllocPause nofail;
     if (trace)
       notes.push_back(s);
   }
@@ -183,6 +188,7 @@ struct Ctx
   bool violate(const char* prop, const std::string& cls, const char* fmt, ...)
     __attribute__((format(printf, 4, 5)))
   {
+    AllocPause nofail;
     char buf[768];
     va_list ap;
     va_start(ap, fmt);
@@ -1062,7 +1068,9 @@ inline int sim_main(World& w, int argc, char** argv)
     }
     if (det_every && (evaluations % det_every == 0)) {
       g_progress.phase = 2;
+      alarm(g_run_alarm_s); // a re-execution that hangs or dies is reported like the primary one (DIED ... phase=2)
       Exec e2 = execute(w, p, &known, true);
+      alarm(0);
       det_checked++;
       if (e2.hash != e.hash) {
         printf("NONDETERMINISM idx=%" PRIu64 " runseed=%" PRIu64 " h1=%s h2=%s\n",
